@@ -417,20 +417,10 @@ def _escapes(node: Node, name: str, closure: Optional[Dict[str, Set[str]]] = Non
     if name not in loads(node):
         return False
     if _mutation_kind(node, name) is not None:
-        # ``errors.append(x)`` mentions errors only as receiver; but
-        # ``errors.extend(errors)`` is silly; treat receiver-only as no escape
-        call = node.stmt.value if isinstance(node.stmt, ast.Expr) else None
-        if isinstance(call, ast.Call):
-            for a in list(call.args) + [k.value for k in call.keywords]:
-                for n in ast.walk(a):
-                    if isinstance(n, ast.Name) and n.id == name:
-                        return True
-            return False
-        if isinstance(node.stmt, ast.AugAssign):
-            for n in ast.walk(node.stmt.value):
-                if isinstance(n, ast.Name) and n.id == name:
-                    return True
-            return False
+        # ``errors.append(x)`` mentions errors only as receiver.  Even
+        # ``errors.append(Error(.., underlying=errors))`` is no hand-over: the
+        # content goes into ``errors`` itself and nowhere else.
+        return False
     if node.kind == "test" and node.expr is not None and _emptiness_test(node.expr, name) is not None:
         return False
     if node.kind == "abort":
